@@ -15,7 +15,7 @@ ALL = ["C%02d" % i for i in range(1, 21)]
 TECH = {
     "C01": "RF-IVL interval abstract interpretation of every fixed-array subscript + RF-NEG decode-error taint + RF-REC recursion inventory + RF-PAIR page-reference typestate",
     "C03": "RF-NEG flow-sensitive decode-error taint (state stores, shifts, unexamined results; OR-accumulation aware) over every function of packet.c/teletext.c + RF-NOWRITE on the link helpers + RF-DOM header/parity-gate/X-26 error-edge dominance + RF-TAB parity-exempt mode table",
-    "C05": "RF-DOM guard dominance on output cursors and slicer calls + RF-INIT constructor completeness + RF-DEP provenance",
+    "C05": "RF-DOM capacity-test dominance on the output cursor and slicer calls + RF-INIT per-installed-slicer field completeness and failure disarm + RF-DEP dependence closure of the CRI search limit",
     "C06": "RF-TAB writer/reader table agreement (mux vs demux data units) + RF-DOM on rejected frames",
     "C07": "RF-PURE no static-state writes + RF-IVL capacity intervals + RF-DOM cursor guards",
     "C09": "RF-IVL interval abstract interpretation of XDS buffer/table subscripts and assertion reachability with field invariants + RF-CORR current-packet invariant (typestate, must-pass-through) + RF-DOM checksum/parity/routing dominance, both implementations",
